@@ -32,6 +32,12 @@ def use_repo_source():
         sys.path.remove(src)
     sys.path.insert(0, src)
     os.environ["PYTHONPATH"] = src
+    try:  # keep check output readable (harness-side only; nothing in /repo changes)
+        import logging
+        import pydrex.logger as _pl
+        _pl.CONSOLE_LOGGER.setLevel(logging.CRITICAL)
+    except Exception:  # noqa: BLE001
+        pass
 
 
 # --------------------------------------------------------------------------
@@ -155,7 +161,7 @@ def coq_files():
     return fs
 
 
-def build(targets=None, jobs=16) -> BuildResult:
+def build(targets=None, jobs=16, groups=None) -> BuildResult:
     """Regenerate gen/*.v, build the Coq development (full .vo), extract, compile driver.
     `targets`: list of .v files (relative to coq/) whose .vo are required; None = all."""
     br = BuildResult()
@@ -194,6 +200,8 @@ def build(targets=None, jobs=16) -> BuildResult:
         br.drivers = {}
         for ex in sorted(glob.glob(os.path.join(COQ, "Extract_*.v"))):
             g = os.path.basename(ex)[len("Extract_"):-2]
+            if groups is not None and g not in groups:
+                continue
             br.drivers[g] = _build_driver(g, os.path.basename(ex) in br.built_vo)
         br.driver_ok = all(v is None for v in br.drivers.values())
         br.driver_error = {g: v for g, v in br.drivers.items() if v is not None} or None
